@@ -34,6 +34,14 @@ def run(chk, unit="asmjit/x86/x86formatter.cpp", rule="R-SIZE-KEYWORD-EXACT"):
         if x is not None and x["k"] in ("call", "mcall") and x.get("cn") == "is_power_of_2" and holds and x.get("args") and \
                 (fn.e(fn.strip(x["args"][0])) or {}).get("did") == size:
             return [("pow2",)]
+        if x is not None and x["k"] == "binop" and x["op"] == "==" and holds:
+            # `entry.<field> == size`: the record in hand is the one of this size
+            for u, w in ((x["lhs"], x["rhs"]), (x["rhs"], x["lhs"])):
+                ux, wx = fn.e(fn.strip(u)), fn.e(fn.strip(w))
+                if ux is not None and ux["k"] == "member" and wx is not None and wx.get("did") == size:
+                    b_ = fn.e(fn.strip(ux["base"]))
+                    if b_ is not None and b_["k"] == "ref":
+                        return [("rec", b_.get("did"), ux.get("field"))]
         return ()
     m = Must(fn, None, edge)
     covered = set()
@@ -57,7 +65,29 @@ def run(chk, unit="asmjit/x86/x86formatter.cpp", rule="R-SIZE-KEYWORD-EXACT"):
                           "outside a case label (for every size that reaches the default branch)", ORACLE.get(kw, "no known size")), key="sizekw|literal|%s" % kw)
             continue
         # computed result
-        ok, why = False, "the result is computed and not of the accepted form table[ctz(size)] under is_power_of_2(size)"
+        ok, why = False, "the result is computed and not of an accepted form (table[ctz(size)] under is_power_of_2(size), or the keyword field of a {size, keyword} record whose size field was compared with `size`)"
+        if v is not None and v["k"] == "member":
+            b_ = fn.e(fn.strip(v["base"]))
+            recs = [t for t in (m.before(r) or frozenset()) if t[0] == "rec" and b_ is not None and t[1] == b_.get("did")]
+            if recs:
+                szf, kwf = recs[0][2], v.get("field")
+                ft = chk.facts(unit, tables=r"asmjit::x86::[A-Za-z_0-9]+$")
+                good = None
+                for tn, tv in ft["tables"].items():
+                    rows = tv.get("value")
+                    if isinstance(rows, list) and rows and all(isinstance(r_, dict) and szf in r_ and kwf in r_ for r_ in rows):
+                        def txt(c):
+                            return c.get("str") if isinstance(c, dict) else c
+                        pairs = [(r_[szf], kw_of(txt(r_[kwf]))) for r_ in rows]
+                        if all(k_ in ORACLE and ORACLE[k_] == sz_ for sz_, k_ in pairs) and len({k_ for _, k_ in pairs}) == len(pairs):
+                            good = pairs
+                        else:
+                            why = "the record table %s pairs a size with the keyword of another size: %s" % (tn.split("::")[-1], pairs)
+                if good:
+                    ok = True
+                    covered |= {k_ for _, k_ in good}
+            chk.ob(rule, inst, ok, loc=fn.loc(r), detail=why, key="sizekw|computed")
+            continue
         subs = [j for j in fn.walk(val) if (fn.e(j) or {}).get("k") == "subscript"] if val is not None else []
         if len(subs) == 1:
             sx = fn.e(subs[0])
